@@ -259,4 +259,22 @@ def dedupMembers : List (Str × JV) → List (Str × JV)
   | (k, v) :: kvs => (k, v.dedup) :: dedupMembers kvs
 end
 
+/-- `sorted(dict.items())` by key: strings compare by code point, lexicographically; the sort is stable (keys of a
+`dict` are distinct anyway) -/
+def sortPairs {β} (l : List (Str × β)) : List (Str × β) := isort (fun a b => strLe a.1 b.1) l
+
+mutual
+/-- what `sort_keys=True` writes: every object's members ordered by key, at every depth -/
+def JV.sortKeys : JV → JV
+  | .arr xs => .arr (sortKeysList xs)
+  | .obj kvs => .obj (sortPairs (sortKeysMembers kvs))
+  | v => v
+def sortKeysList : List JV → List JV
+  | [] => []
+  | x :: xs => x.sortKeys :: sortKeysList xs
+def sortKeysMembers : List (Str × JV) → List (Str × JV)
+  | [] => []
+  | (k, v) :: kvs => (k, v.sortKeys) :: sortKeysMembers kvs
+end
+
 end JsonText
